@@ -260,6 +260,9 @@ func c18(c *core.Ctx, r *core.Report) {
 				continue
 			}
 			for _, call := range an.AllCalls(fn) {
+				if isTimeMethod(an.Callee(call), "Timer", "Reset") {
+					r.Violation(core.FuncName(fn)+"#timer-reset", an.Pos(c, call), "the next-schedule timer is re-armed with Reset: an expiry that was already delivered to its channel survives Stop+Reset (the module's go directive keeps buffered timer channels) and moves the runner to the next schedule at once instead of after its start delay; create a new timer")
+				}
 				if isTimeMethod(an.Callee(call), "Ticker", "Reset") {
 					r.Violation(core.FuncName(fn)+"#ticker-reset", an.Pos(c, call), "the schedule switch re-arms the existing ticker with Reset: a tick of the previous schedule that is already pending survives the switch and fires the function at once with the new schedule's frequency (not a tick of the active schedule); stop the old ticker and create a new one")
 				}
@@ -452,7 +455,8 @@ func joinRule(c *core.Ctx, r *core.Report, f *runnerFacts) {
 			r.OK(key, pos, "explicit release with no invocation reachable afterwards")
 		})
 	}
-	if !r.Floor("releases of the join channel", releases, 1) {
+	if releases == 0 {
+		r.Violation(core.FuncName(f.stop)+"#join-released-by-goroutine", an.Pos(c, f.stopRecv), "the channel Stop waits on (field %s) is never closed or sent to by the runner goroutine: whatever releases it (a cancelled context, say) does so without waiting for the goroutine, so Stop returns while the function may still run", f.joinField.Name())
 		return
 	}
 	// every return of the goroutine is covered by a release
